@@ -117,6 +117,42 @@ def r2(run, ctx):
         run.check('R2', astq.call_is_yielded(s.node, s.call) and
                   astq.has_pattern(s.call, "$n['numprocesses']"),
                   'the new target comes from the new file and is awaited', f, s.node.ast)
+    # the remembered configuration must not be damaged by constructing the watcher:
+    # every helper that mutates its dict argument gets a copy
+    from rules.common import is_fresh_container
+    init = ctx.fn(W + '__init__')
+    for s in ctx.sites(init):
+        if s.kind != 'call' or not s.precise:
+            continue
+        for t in s.targets:
+            if t.cls is not None or not t.node.args.args:
+                continue
+            p0 = t.node.args.args[0].arg
+            mutates = any(
+                (isinstance(x, ast.Call) and isinstance(x.func, ast.Attribute) and
+                 x.func.attr in ('pop', 'popitem', 'clear', 'update', 'setdefault') and
+                 dotted(x.func.value) == p0) or
+                (isinstance(x, ast.Delete) and any(isinstance(y, ast.Subscript) and
+                                                   dotted(y.value) == p0 for y in x.targets)) or
+                (isinstance(x, ast.Assign) and any(isinstance(y, ast.Subscript) and
+                                                   dotted(y.value) == p0 for y in x.targets))
+                for x in ast.walk(t.node))
+            if not mutates or not s.call.args:
+                continue
+            arg = s.call.args[0]
+            src = arg
+            if isinstance(arg, ast.Attribute) and dotted(arg.value) == 'self':
+                defs = [a for a in walk_local(init.node) if isinstance(a, ast.Assign) and any(
+                    isinstance(tt, ast.Attribute) and tt.attr == arg.attr and
+                    dotted(tt.value) == 'self' for tt in a.targets)]
+                src = defs[0].value if defs else arg
+            run.check('R2', is_fresh_container(src), '%s (which modifies its argument) is given a '
+                      'copy of the constructor argument' % t.qualname, init, s.node.ast,
+                      '%s modifies the very dict object the caller passed in (%s): building a '
+                      'watcher from a configuration damages the remembered baseline (w._cfg shares '
+                      'it), so every later reloadconfig sees a difference and recreates the '
+                      'watcher' % (t.qualname, norm_text(src)),
+                      construct='%s mutates caller dict via %s' % (t.name, norm_text(src)))
     # delete+add replaces the watcher object (fresh _cfg)
     lf = ctx.fn(W + 'load_from_config')
     run.check('R2', astq.has_pattern(lf.node, '$w._cfg = $c') and
